@@ -209,10 +209,15 @@ def eval_site(sg, params, site, radius_spec, supercell, res: Result):
     positions = build_positions(site, ops, M, radius)
     pad = 0
     exp, ties = expected(site, ops, M, positions, radius)
-    psite = PeriodicSite('Li', site, lat, label='X')
+    lat_site = lat
+    if int(round(float(site[1] + site[2]) * 100)) % 2 == 0:
+        from pymatgen.core import Lattice as _L
+
+        lat_site = _L(M @ geom.rotation((33.0, 21.0, 57.0)).T)  # the same cell in another orientation
+    psite = PeriodicSite('Li', site, lat_site, label='X')
     # a second, different site with the SAME label on the same analyzer
     site2 = np.mod(site + np.array([0.21, 0.13, 0.37]), 1.0)
-    psite2 = PeriodicSite('Li', site2, lat, label='X')
+    psite2 = PeriodicSite('Li', site2, lat_site, label='X')
     sa = ShapeAnalyzer(sites=[psite, psite2], lattice=lat, spacegroup=g)
     try:
         if tuple(supercell) == (1, 1, 1):
